@@ -587,7 +587,7 @@ pub fn marshal_rtcp_packets(packets: &[RtcpPacket]) -> RtpResult<Vec<u8>> {
                 &mut out,
                 bye.sources.len() as u8,
                 RTCP_BYE,
-                build_goodbye_body(bye),
+                build_goodbye_body(bye)?,
             ),
             RtcpPacket::PictureLossIndication(pli) => write_rtcp_packet(
                 &mut out,
@@ -951,19 +951,23 @@ fn build_sdes_body(sdes: &SourceDescription) -> RtpResult<Vec<u8>> {
     Ok(body)
 }
 
-fn build_goodbye_body(bye: &Goodbye) -> Vec<u8> {
+fn build_goodbye_body(bye: &Goodbye) -> RtpResult<Vec<u8>> {
     let mut body = Vec::new();
     for ssrc in &bye.sources {
         body.extend_from_slice(&ssrc.to_be_bytes());
     }
     if let Some(reason) = &bye.reason {
         let bytes = reason.as_bytes();
-        let len = bytes.len().min(255) as u8;
-        body.push(len);
-        body.extend_from_slice(&bytes[..len as usize]);
+        // RFC 3550 6.6: the reason length is a single octet. Cutting the text at
+        // 255 bytes would change it (and can split a UTF-8 character), so refuse.
+        if bytes.len() > 255 {
+            return Err(RtpError::InvalidRtcp("BYE reason longer than 255 bytes"));
+        }
+        body.push(bytes.len() as u8);
+        body.extend_from_slice(bytes);
         // Padding to 32-bit boundary is handled by write_rtcp_packet
     }
-    body
+    Ok(body)
 }
 
 fn build_report_block(block: &ReportBlock) -> [u8; 24] {
